@@ -1204,6 +1204,9 @@ def _op_tf_call(ctx, owner, op):
         ctx.probes.hit("tf-scale-fixed-by:" + method)
         if float(b_after) == 0.0 or not np.isfinite(b_after):
             m["poisoned"] = True  # documented-as-invalid first grid; results follow tf.b consistently
+    elif m["b"] is None and b_after is None and oc[0] == "ok" and method in ("transform", "grid") and np.isfinite(np.max(x)) and np.max(x) > 0:
+        # "infers its scale from the first grid it sees": an accepted first grid must leave the scale behind
+        ctx.violate("tf-scale-not-remembered", "tf_call", sig, f"{m['cls']}.{method} accepted its first grid (maximum {np.max(x)}) but the transform has no scale afterwards: later calls will infer another one")
     elif m["b"] is not None and b_after != m["b"]:
         ctx.violate("tf-b-changed", "tf_call", sig, f"{m['cls']} scale changed by a later {method} call: {m['b']} -> {b_after} (array max {np.max(x)})")
         m["b"] = b_after
